@@ -40,7 +40,7 @@ from ..ast.fpyast import (
     UnderscoreId,
     Var,
 )
-from ..ast.visitor import DefaultTransformVisitor
+from ..ast.visitor import DefaultTransformVisitor, DefaultVisitor
 from ..utils import Id
 from .utils import clone
 
@@ -197,31 +197,60 @@ def _binding_names(target: Id | TupleBinding) -> list[NamedId]:
             return []
 
 
+class SubstCapture(Exception):
+    """A replacement would land under a comprehension target that binds one of
+    the names it reads."""
+
+
+class _VarNames(DefaultVisitor):
+    def __init__(self):
+        super().__init__()
+        self.names: set[NamedId] = set()
+
+    def _visit_var(self, e: Var, ctx: Any):
+        self.names.add(e.name)
+
+
+def _free_names(e: Expr) -> set[NamedId]:
+    v = _VarNames()
+    v._visit_expr(e, None)
+    return v.names
+
+
 class SubstNames(DefaultTransformVisitor):
     """Replace every :class:`Var` reference to a name in *subst* with the
     corresponding expression.  Scope-aware: a comprehension target that shadows
     a substituted name disables the substitution inside that comprehension, so
-    the inner uses bind to the shadowing iteration variable.
+    the inner uses bind to the shadowing iteration variable.  A replacement is
+    never put where a nested comprehension's target would capture a name it
+    reads (``x -> xs[i]`` inside ``[... for i in ws]``): that raises
+    :class:`SubstCapture`, and the caller leaves the comprehension alone.
     """
 
     def __init__(self, subst: dict[NamedId, Expr]):
         super().__init__()
         self._subst = dict(subst)
+        self._bound: list[NamedId] = []
 
     def _visit_var(self, e: Var, ctx: Any):
         replacement = self._subst.get(e.name)
         if replacement is not None:
+            if self._bound and not _free_names(replacement).isdisjoint(self._bound):
+                raise SubstCapture(e.name)
             return replacement
         return super()._visit_var(e, ctx)
 
     def _visit_list_comp(self, e: ListComp, ctx: Any):
         # Disable any substitution this comp's targets shadow, then restore.
         shadowed: dict[NamedId, Expr] = {}
+        nbound = len(self._bound)
         for target in e.targets:
             for name in _binding_names(target):
+                self._bound.append(name)
                 if name in self._subst:
                     shadowed[name] = self._subst.pop(name)
         try:
             return super()._visit_list_comp(e, ctx)
         finally:
+            del self._bound[nbound:]
             self._subst.update(shadowed)
